@@ -284,8 +284,11 @@ func (c *Client) BlockchainInfo(ctx context.Context, minHeight, maxHeight int64)
 	}
 
 	// Verify each of the BlockMetas.
+	// NOTE: only the last (lowest) height was brought into the trusted store
+	// above; the others are verified here if the light client does not have
+	// them yet (TrustedLightBlock would fail for them).
 	for _, meta := range res.BlockMetas {
-		h, err := c.lc.TrustedLightBlock(meta.Header.Height)
+		h, err := c.updateLightClientIfNeededTo(ctx, &meta.Header.Height)
 		if err != nil {
 			return nil, fmt.Errorf("trusted header %d: %w", meta.Header.Height, err)
 		}
